@@ -50,8 +50,11 @@ CONSTANTS
                  \* True / False / None;  "off+true", "off+false": resolve_aliases=False with the (unread) option set
   StubModes,     \* subset of {"none","inpkg","ext","find","find+ext"}: find_stubs_package and where the stubs are
   Layouts,       \* subset of {"flat","chain"}: p.a and p.b siblings / p.a a sub-package containing p.a.b
-  Entries,       \* subset of {"load", "load_git"}: the caller of the protocol; load_git checks the package out of a
-                 \* git repository into a temporary worktree and forwards its options to load()
+  Entries,       \* subset of {"load", "load_git", "attrs"}: the caller of the protocol; load_git checks the package out of a
+                 \* git repository into a temporary worktree and forwards its options to load(); attrs = a GriffeLoader built
+                 \* with the default options (inspection allowed) whose public attributes allow_inspection / force_inspection
+                 \* are then assigned the case's values before loader.load() / loader.resolve_aliases() are called
+  OnPaths,       \* subset of BOOLEAN: the search directory is already an entry of sys.path (same string) when the call is made
   Tops,          \* kinds of the top-level module p: py pyi so xc ns sofile zip missing
                  \*   zip = a source package inside a zip archive on the search path: invisible to the finder, importable
   KidsA, KidsB,  \* kinds of the sub-modules a, b: py pyi so xc missing both (both = x.py with its stub file x.pyi next to it)
@@ -68,7 +71,8 @@ CONSTANTS
   ExtPrivates,   \* subset of BOOLEAN: the external package is the private sibling _p
   ExtKinds,      \* py (q.py), sofile (compiled single-file module), missing
   Bugs           \* subset of {"none", "allowFirst", "noReraise", "noFinally", "stubsDynamic", "externalInspect",
-                 \*            "pydInspected", "guardedRestore", "probeOnMiss", "gitDropsAllow"}
+                 \*            "pydInspected", "guardedRestore", "probeOnMiss", "gitDropsAllow",
+                 \*            "cachedFlag", "skipSwapOnPath"}
 
 VARIABLES
   cfg,          \* the case (constant during the behaviour)
@@ -108,6 +112,9 @@ Bug == cfg.bug
 \* what the loader object is configured with (load_git forwards the caller's options)
 LoaderAllow == IF Bug = "gitDropsAllow" /\ cfg.entry = "load_git" THEN TRUE ELSE cfg.allow
 LoaderStatic == ~LoaderAllow /\ ~cfg.force
+\* what the "not found on disk" branch of load() consults: the attributes as they are at the time of the call
+MissStatic == IF Bug = "cachedFlag" /\ cfg.entry = "attrs" THEN FALSE      \* a flag computed in __init__ (defaults: allowed)
+              ELSE LoaderStatic
 FileOf(m) ==
   CASE m \in {"p", "a", "b"} -> (IF cfg.file[m] = "both" THEN "py" ELSE cfg.file[m])
     [] m = "q" -> IF cfg.extstyle = None THEN "missing" ELSE cfg.extkind
@@ -228,18 +235,18 @@ InitCase ==
         kb \in (IF top \in NoDir THEN {"missing"} ELSE KidsB) :
      \E es \in (IF top \in {"py", "pyi"} THEN ExtStyles ELSE {None}) :
      \E ep \in (IF es = None THEN {FALSE} ELSE ExtPrivates), ek \in (IF es = None THEN {"missing"} ELSE ExtKinds) :
-     \E bg \in Bugs, pm \in PathMuts, sb \in Submods, os \in ObjSpecs, en \in Entries :
+     \E bg \in Bugs, pm \in PathMuts, sb \in Submods, os \in ObjSpecs, en \in Entries, op \in OnPaths :
      \E fp \in FaultsFor(top, TopFaults), fa \in FaultsFor(ka, KidFaults), fb \in FaultsFor(kb, KidFaults),
         fq \in FaultsFor(IF es = None THEN "missing" ELSE ek, ExtFaults) :
        /\ (ka = "missing" /\ kb = "missing") => lay = "flat"          \* the layouts coincide
        /\ top \in NoDir => lay = "flat"
        /\ sm = "inpkg" => top = "py"
-       /\ (en = "load_git") => (os \in {"name", "dotted"} /\ top # "zip")      \* load_git: try_relative_path=False, string object paths
+       /\ (en = "load_git") => (os \in {"name", "dotted"} /\ top # "zip" /\ ~op)      \* load_git: try_relative_path=False, string object paths
        /\ cfg = [allow |-> AllowOf(af), force |-> ForceOf(af), resolve |-> ResolveOf(rs), external |-> ExternalOf(rs),
                  findstubs |-> FindStubsOf(sm), stubs |-> StubsOf(sm), layout |-> lay,
                  file |-> [p |-> top, a |-> ka, b |-> kb],
                  extstyle |-> es, extprivate |-> ep, extkind |-> ek,
-                 fault |-> [p |-> fp, a |-> fa, b |-> fb, q |-> fq], pathmut |-> pm, submodules |-> sb, objspec |-> os, entry |-> en, bug |-> bg]
+                 fault |-> [p |-> fp, a |-> fa, b |-> fb, q |-> fq], pathmut |-> pm, submodules |-> sb, objspec |-> os, entry |-> en, onpath |-> op, bug |-> bg]
 InitRun ==
   /\ pc = (IF cfg.entry = "load_git" THEN "Checkout" ELSE "Construct") /\ wt = None /\ lstack = <<>> /\ cur = None /\ role = None /\ dyn = NoDyn /\ exc = None
   /\ sysPath = "orig" /\ savedPath = <<>> /\ dirty = {} /\ sysModules = {} /\ executed = {}
@@ -252,8 +259,13 @@ Init == InitCase /\ InitRun
 \* ---- GriffeLoader.__init__ ---------------------------------------------------------------------------
 LoadExtensions ==
   /\ pc = "Construct"
-  /\ pc' = "LoadMain"
+  /\ pc' = IF cfg.entry = "attrs" THEN "SetOptions" ELSE "LoadMain"
   /\ Ev([ev |-> "LoadExtensions", touched |-> FALSE])            \* sys_path() without paths leaves sys.path alone
+  /\ UNCHANGED <<cfg, wt, lstack, cur, role, dyn, exc, pathvars, impvars, treevars, outcome>>
+
+SetOptions ==          \* loader.allow_inspection = ...; loader.force_inspection = ...   (public attributes of the loader)
+  /\ pc = "SetOptions" /\ pc' = "LoadMain"
+  /\ Ev([ev |-> "SetOptions", allow |-> cfg.allow, force |-> cfg.force])
   /\ UNCHANGED <<cfg, wt, lstack, cur, role, dyn, exc, pathvars, impvars, treevars, outcome>>
 
 \* ---- GriffeLoader.load ------------------------------------------------------------------------------
@@ -281,7 +293,7 @@ FindSpec ==
         THEN /\ pc' = "LoadRaise" /\ exc' = "FileNotFoundError"                   \* not a ModuleNotFoundError: escapes load() as it is
              /\ UNCHANGED <<cur, role, dyn>>
         ELSE IF r.res = "notfound"
-        THEN IF LoaderStatic /\ Bug # "noReraise"
+        THEN IF MissStatic /\ Bug # "noReraise"
              THEN /\ pc' = "LoadRaise" /\ exc' = "ModuleNotFoundError"        \* `raise` in the except clause of load()
                   /\ UNCHANGED <<cur, role, dyn>>
              ELSE /\ pc' = "DynImport" /\ dyn' = NewDyn(Pkg, "top")            \* dynamic_import(top_module_name, search_paths)
@@ -359,9 +371,12 @@ DynImport ==
 
 EnterSysPath ==                                    \* old_path = sys.path; sys.path = [search paths]
   /\ pc = "EnterSysPath"
-  /\ savedPath' = Append(savedPath, sysPath) /\ sysPath' = "search" /\ dirty' = dirty \ {"search"}      \* a fresh list every time
+  /\ LET swap == ~(Bug = "skipSwapOnPath" /\ cfg.onpath)       \* always: also when sys.path already lists the search directories
+     IN /\ savedPath' = Append(savedPath, sysPath)
+        /\ sysPath' = IF swap THEN "search" ELSE sysPath
+        /\ dirty' = IF swap THEN dirty \ {"search"} ELSE dirty            \* a fresh list every time
+        /\ Ev([ev |-> "EnterSysPath", replaced |-> swap])
   /\ pc' = "TryImport"
-  /\ Ev([ev |-> "EnterSysPath", replaced |-> TRUE])
   /\ UNCHANGED <<cfg, wt, lstack, cur, role, dyn, exc, impvars, treevars, outcome>>
 
 TryImport ==                                       \* import_module(".".join(module_parts))
@@ -543,7 +558,7 @@ Step ==
   \/ Submodule \/ CreateNsParent \/ SkipSubmodule
   \/ DynImport \/ EnterSysPath \/ TryImport \/ Import \/ ImportOk \/ ImportFail \/ ExitSysPath
   \/ DynImportOk \/ DynImportFail \/ InspectTop \/ Inspected \/ InspectFail \/ WrapError \/ StubPass
-  \/ LoadReturn \/ LoadMissing \/ LoadRaise \/ Return \/ Raise \/ Checkout \/ Cleanup
+  \/ LoadReturn \/ LoadMissing \/ LoadRaise \/ Return \/ Raise \/ Checkout \/ Cleanup \/ SetOptions
 Next == Step \/ Finished
 Spec == Init /\ [][Next]_vars
 
@@ -576,7 +591,7 @@ ExecOnlyUnderSwap == [][executed' # executed => (sysPath # "orig" /\ savedPath #
 OutcomeLegal ==
   /\ outcome \in {None, "Return", "ModuleNotFoundError", "ImportError", "LoadingError", "FileNotFoundError", "KeyError"}
   /\ (outcome = "KeyError") => cfg.objspec = "dotted"              \* the object path names nothing in the loaded package
-  /\ (outcome = "ModuleNotFoundError") => LoaderStatic          \* re-raised iff inspection is disallowed
+  /\ (outcome = "ModuleNotFoundError") => MissStatic          \* re-raised iff inspection is disallowed
   /\ (outcome = "FileNotFoundError") => (cfg.objspec = "abspath" /\ executed = {})    \* documented for Path arguments
   /\ (Static /\ pc = "Done" /\ FindRes("p").res = "notfound") => outcome \in {"ModuleNotFoundError", "FileNotFoundError"}
 TypeOK ==
@@ -595,6 +610,8 @@ CatchPydInspected == Bug = "pydInspected" => (NoExecutionWhenStatic /\ CompiledS
 CatchGuardedRestore == Bug = "guardedRestore" => PathRestoredAtEnd
 CatchProbeOnMiss == Bug = "probeOnMiss" => NoExecutionWhenStatic
 CatchGitDropsAllow == Bug = "gitDropsAllow" => (NoExecutionWhenStatic /\ CompiledSkippedWhenStatic)
+CatchCachedFlag == Bug = "cachedFlag" => NoExecutionWhenStatic
+CatchSkipSwapOnPath == Bug = "skipSwapOnPath" => PathRestoredAtEnd
 WorktreeRemoved == pc = "Done" => wt # "present"
 
 \* every terminal state is printed: one implementation test per case (gverif/props/c15.py replays it)
